@@ -33,6 +33,7 @@ Record case := mk_case {
   o_closed : list bool;         (* per return: initialized was closed *)
   o_conc : list (list (bool * Z * Z));    (* per goroutine, per call/op: error?, digest|#relations, rows affected|#fields *)
   o_serial : list (list (bool * Z * Z));
+  c_optys : list (list ty);     (* database rounds: per goroutine, per operation: the model type it works on *)
   o_final_c : Z; o_final_s : Z; (* digest of the final dump: concurrent, serial *)
   c_used : list ty;
   c_prewarm : list ty;          (* cold rounds: types used once, serially, before the goroutines start *)
@@ -157,6 +158,17 @@ Definition errs_as_alone (c : case) : bool :=
                     | _ => true
                     end) (o_events c).
 
+(* database rounds: an operation on a model type with a malformed relation of its own returns an
+   error (the parse error), whoever else uses the type at that moment *)
+Fixpoint ops_fail (cfg : config) (tys : list ty) (rs : list (bool * Z * Z)) : bool :=
+  match tys, rs with
+  | t :: tys', r :: rs' => (if malformedb cfg t then fst (fst r) else true) && ops_fail cfg tys' rs'
+  | _, _ => true
+  end.
+Fixpoint all2 {A B} (f : A -> B -> bool) (a : list A) (b : list B) : bool :=
+  match a, b with x :: a', y :: b' => f x y && all2 f a' b' | _, _ => true end.
+Definition ops_as_alone (c : case) : bool := all2 (ops_fail (c_cfg c)) (c_optys c) (o_conc c).
+
 Definition no_race_cat (c : case) (k : nat) : bool :=
   forallb (fun r => negb (Nat.eqb (fst (fst r)) k)) (o_races c).
 
@@ -169,6 +181,7 @@ Definition spec_holds (c : case) : bool :=
           && (o_final_c c =? o_final_s c)
           && winners_ok (o_events c) []
           && errs_as_alone c
+          && ops_as_alone c
           && no_race_cat c 1)
   | 1%nat => no_race_cat c 0
   | 2%nat => no_race_cat c 3
